@@ -624,7 +624,7 @@ func (g *c04Gen) boolean(d int) string {
 
 func runC04(c *runCtx) error {
 	r := newRng(c.seed)
-	header := "From Coq Require Import List String ZArith.\nFrom KV Require Import Base.Bytes Model.Ast Model.Value Corr.EvalCommon Corr.C04.\nImport ListNotations.\nOpen Scope string_scope.\nDefinition P : list (bytes * bytes) := " + coqPairs(c04Pairs) + ".\n"
+	header := "From Coq Require Import List String ZArith.\nFrom KV Require Import Model.SelectPlans Corr.C03Stmt Corr.C03Text Corr.C04Text.\nFrom KV Require Model.Order Spec.Group.\nFrom KV Require Import Base.Bytes Model.Ast Model.Value Corr.EvalCommon Corr.C04.\nImport ListNotations.\nOpen Scope string_scope.\nNotation case := xcase (only parsing).\nNotation mismatches := xmismatches (only parsing).\nNotation Case := XCase (only parsing).\nDefinition P : list (bytes * bytes) := " + coqPairs(c04Pairs) + ".\n"
 	e := newEmitter(c.out, "C04", header, 200)
 	thorough := c.thorough()
 	ctx := &c04Ctx{e: e, r: r, pairs: c04Pairs, obsAll: false}
@@ -942,6 +942,7 @@ func runC04(c *runCtx) error {
 			}
 		}
 	}
+	c04TextStream(c, e, r)
 	e.m.Exhaustive = thorough
 	return e.flush()
 }
